@@ -165,8 +165,8 @@ void reg_conv_a() {  // converters without inverse of F1 in the result (polynomi
 }
 
 template <unsigned short N>
-void reg_conv_b() {  // converters through F1^-1 (expensive rational identities: 2D and 3D in the thorough tier)
-  constexpr int t3 = (N >= 2 ? 1 : 0);
+void reg_conv_b() {  // converters through F1^-1 (expensive rational identities)
+  constexpr int t3 = 1;  // thorough tier only
   conv<TO::DS_DEGL, TO::SPATIAL_MODULI, N>("DS_DEGL_from_SPATIAL_MODULI", t3, HF1);
   conv<TO::DTAU_DF, TO::DS_DF, N>("DTAU_DF_from_DS_DF", t3, HF1);
   conv<TO::DTAU_DF, TO::C_TAU_JAUMANN, N>("DTAU_DF_from_C_TAU_JAUMANN", t3, HF1);
